@@ -53,4 +53,10 @@ CHECKS = {
         "level_note": "Trusts the reference normaliser (harness/src/normref.rs) and the Unicode tables of std / unicode-normalization.",
         "technique": "reference-model monitor + metamorphic (fast-path vs general-path) monitor; exhaustive code-point sweep",
     },
+    "C16": {
+        "level_text": "Exploration: generated texts are split by the real SentenceSplitter under varying window limits with and without the dictionary checker; five oracles (partition/termination, terminator at every break, bracket level, dictionary-word veto, conservative converse) judge every result. Held on the counted texts.",
+        "design_ref": "DESIGN.md 6/C16",
+        "level_note": "P5 is deliberately conservative; D12/D13 are known findings reported through labelled probes.",
+        "technique": "runtime oracles over SentenceSplitter output (invariant + conservative converse) under seeded workloads",
+    },
 }
